@@ -56,7 +56,7 @@ def cf1d(c, *, bounds=False, as_coords=True, lat_name='lat', lon_name='lon', ydi
 
 
 def cf2d(c, *, bounds=False, as_coords=True, ydim='j', xdim='i', lat_name='lat', lon_name='lon',
-         coord_kind='floatnan', attrs=None, std_names=True, extra=(), first_var=None, lon_transposed=False):
+         coord_kind='floatnan', attrs=None, std_names=True, extra=(), first_var=None, lon_transposed=False, bounds_dims='yx4'):
     ny, nx = sym_size(c, 'ny', 0), sym_size(c, 'nx', 0)
     ds = XDataset(attrs=attrs or {})
     if first_var is not None:
@@ -77,8 +77,10 @@ def cf2d(c, *, bounds=False, as_coords=True, ydim='j', xdim='i', lat_name='lat',
     else:
         add_var(ds, lon_name, (ydim, xdim), sym_array(c, 'lonv', (ny, nx), coord_kind), lon_attrs, coord=as_coords)
     if bounds:
-        add_var(ds, 'lat_bnds', (ydim, xdim, 'four'), sym_array(c, 'latb', (ny, nx, 4), coord_kind), coord=(bounds == 'coords'))
-        add_var(ds, 'lon_bnds', (ydim, xdim, 'four'), sym_array(c, 'lonb', (ny, nx, 4), coord_kind), coord=(bounds == 'coords'))
+        bd, bs = {'yx4': ((ydim, xdim, 'four'), (ny, nx, 4)), 'xy4': ((xdim, ydim, 'four'), (nx, ny, 4)), 'yx3': ((ydim, xdim, 'three'), (ny, nx, 3)),
+                  '4yx': (('four', ydim, xdim), (4, ny, nx))}[bounds_dims]
+        add_var(ds, 'lat_bnds', bd, sym_array(c, 'latb', bs, coord_kind), coord=(bounds == 'coords'))
+        add_var(ds, 'lon_bnds', bd, sym_array(c, 'lonb', bs, coord_kind), coord=(bounds == 'coords'))
     for ex in extra:
         name, dims, vkind = (tuple(ex) + ('V',))[:3]
         sizes = dict(ds._sizes())
